@@ -8,6 +8,7 @@
 #include <csignal>
 #include <cstdlib>
 #include <ctime>
+#include <dirent.h>
 #include <fcntl.h>
 #include <poll.h>
 #include <set>
@@ -26,6 +27,37 @@ const std::string &scratch_dir() { return g_scratch; }
 const std::string &tier() { return g_tier; }
 const std::string &build_dir() { return g_build; }
 bool known(const std::string &sig) { return g_known.count(sig) != 0; }
+
+static std::string g_case_dir;
+const std::string &case_dir() { return g_case_dir; }
+
+static void rm_at(int dfd, const char *name)
+{
+  struct stat st;
+  if (fstatat(dfd, name, &st, AT_SYMLINK_NOFOLLOW) != 0) return;
+  if (!S_ISDIR(st.st_mode)) {
+    unlinkat(dfd, name, 0);
+    return;
+  }
+  fchmodat(dfd, name, 0700, 0);
+  int fd = openat(dfd, name, O_RDONLY | O_DIRECTORY | O_NOFOLLOW | O_CLOEXEC);
+  if (fd >= 0) {
+    DIR *d = fdopendir(fd);
+    if (d) {
+      struct dirent *e;
+      while ((e = readdir(d)) != nullptr) {
+        if (!strcmp(e->d_name, ".") || !strcmp(e->d_name, "..")) continue;
+        rm_at(dirfd(d), e->d_name);
+      }
+      closedir(d);
+    } else {
+      close(fd);
+    }
+  }
+  unlinkat(dfd, name, AT_REMOVEDIR);
+}
+
+void rm_rf(const std::string &path) { rm_at(AT_FDCWD, path.c_str()); }
 
 static double now_s()
 {
@@ -140,6 +172,9 @@ static CaseResult run_isolated_once(const std::vector<uint32_t> &words, long swe
     exit(2);
   }
   std::string errfile = g_scratch + "/case-stderr";
+  g_case_dir = g_scratch + "/case";
+  rm_rf(g_case_dir);
+  mkdir(g_case_dir.c_str(), 0755);
   fflush(NULL);
   pid_t pid = fork();
   if (pid < 0) {
@@ -218,6 +253,7 @@ static CaseResult run_isolated_once(const std::vector<uint32_t> &words, long swe
   // Reap the whole group's leftovers (puppets are children of the case
   // process and die with it through PDEATHSIG).
   kill(-pid, SIGKILL);
+  rm_rf(g_case_dir);
 
   CaseResult r;
   if (timed_out) {
@@ -620,10 +656,6 @@ int main(int argc, char **argv)
     rc_exit = 2;
   }
 
-  if (own_scratch) {
-    std::string cmd = "rm -rf '" + g_scratch + "'";
-    if (system(cmd.c_str()) != 0) {
-    }
-  }
+  if (own_scratch) rm_rf(g_scratch);
   return rc_exit;
 }
